@@ -148,11 +148,14 @@ def run_divide(st, opts):
             return tt.elementwise_divide(x, y, eps=eps, starting_tensor=g), xd, eps
         return tt.elementwise_divide(x, y, eps=eps, starting_tensor=g, preconditioner='c'), xd, eps
     ncalls = 2 if cfg["guess"] == "reused" else 1
+    dtraces = []
     for it in range(ncalls):
         snap = algrun.snapshot(objs)
         stats["calls"] += 1
+        cap = Capture("amen")
         try:
-            q, num, e_solver = call()
+            with cap:
+                q, num, e_solver = call()
         except Exception as ex:  # noqa
             problems.append(mk_problem("C13", "exception", cfg, "call %d raised %s: %s" % (it + 1, type(ex).__name__, str(ex)[:200]), st, {"exc": type(ex).__name__}))
             check_operands(cfg, st, tt, objs, snap, names, problems)
@@ -160,6 +163,12 @@ def run_divide(st, opts):
         check_operands(cfg, st, tt, objs, snap, names, problems)
         if not check_tt("C13", cfg, st, tt, q, "tt", N, [], problems):
             continue
+        t = cap.trace(cfg, [int(r) for r in q.R])
+        if t is not None:
+            t["kind"] = "amen"
+            dtraces.append(t)
+            if t["result_R"] != t["end"]["rx"]:
+                problems.append(mk_problem("C13", "ranks-vs-shapes", cfg, "the sweep's rank list %s differs from the returned object's ranks %s" % (t["end"]["rx"], t["result_R"]), st))
         err = rel_err(project.dense(q.cores) * yd, num)
         stats["err_over_eps_max"] = max(stats.get("err_over_eps_max", 0), err / e_solver)
         if err > TOL["C13"] * e_solver + 1e4 * U64:
@@ -172,7 +181,7 @@ def run_divide(st, opts):
         if not torch.equal(project.dense(q.cores) * 4.0, xd) and rel_err(project.dense(q.cores) * 4.0, xd) > 8 * U64:
             problems.append(mk_problem("C13", "scalar", cfg, "x / 4.0 is not exact", st))
     stats["nontrivial"] = 1 if d >= 2 and cfg["r"] >= 2 else 0
-    return {"problems": problems, "stats": stats, "sample": {"cfg": cfg}}
+    return {"problems": problems, "stats": stats, "sample": {"cfg": cfg}, "artifacts": dtraces}
 
 
 def dispatch(st, opts):
